@@ -53,6 +53,12 @@ CHECKS = {
         text="TLC enumerates every (pattern, value) pair of a bounded space (7 atoms, 3 regexes, lists/sets/dicts, depth <= 1; thorough: depth-2 patterns with values derived by <= 2 Add/Drop/Swap/Alter/Nest mutation steps explored as a transition system) and the event-level rule cases; each is executed by the real interpreter (`match Probe(v=$p)`), and the recorded advance/no-advance observations are judged by the TLA+ rule M / EventMatch. Exhaustive within the bound.",
         note="trusted: MatchRules.tla as the reading of the documented rules (lists as subsequence, as the statement says); bool-vs-int pairs not judged; patterns injected through a global variable, a sample through literal source",
         design_ref="6/C04"),
+    "C20": dict(
+        category="model_checking", engine="Server",
+        technique="TLA+ specs PathModel (posixpath join/normpath + the server's acceptance test, judge Inside(root, path)) and Server (thread store transition system) model-checked with TLC; every TLC-generated config id / request sequence replayed through the real FastAPI app (TestClient, recording stubs for RailsConfig.from_path / LLMRails); recorded observations judged by TLC (Judge_PathModel, Trace_Server)",
+        text="All config id strings up to 4/5 characters over {a . / \\ % 2 e ~ -}, component-built ids in 6 variants (relative, absolute, //, root-prefixed, parent-prefixed, backslash), id lists, with a sibling directory sharing the root's name prefix; all request sequences <= 4/5 over 3 adversarial thread ids x 3 message shapes + no-thread + too-short id. Judge: every path handed to the loader (or behind a cached instance) is inside the root, anything else gets the fixed reply without generation; thread store = stored thread + new messages + reply, threads never mix.",
+        note="trusted: recording stubs (observable = path handed to from_path), POSIX path semantics, MemoryStore, TestClient; symlinks inside the root, import_paths of the real loader, streaming branch out of scope; HTTP status codes not judged",
+        design_ref="6/C20"),
 }
 
 NOT_YET = "check not built yet in this round (planned, see DESIGN.md section 6)"
